@@ -118,6 +118,31 @@ struct Chain {
     own: NodeInfo,
     obs: NodeInfo,
     published: Vec<AuthenticatedTransportInfo>,
+    /// mirror every insert into two REAL address books (actor + SQLite store) and require agreement
+    books: bool,
+}
+
+/// Two real `AddressBook`s (the node's own and a remote observer's), shared by all chains: every
+/// chain uses a fresh node id. `insert_transport_info` runs address_book/actor.rs:213-240, which is
+/// where `update_transports` is called in production.
+struct Books {
+    rt: tokio::runtime::Runtime,
+    own: p2panda_net::AddressBook,
+    obs: p2panda_net::AddressBook,
+}
+
+thread_local! {
+    static BOOKS: Books = {
+        let rt = tokio::runtime::Builder::new_current_thread().enable_all().build().expect("runtime");
+        let (own, obs) = rt.block_on(async {
+            (
+                p2panda_net::AddressBook::builder().spawn().await.expect("address book"),
+                p2panda_net::AddressBook::builder().spawn().await.expect("address book"),
+            )
+        });
+        Books { rt, own, obs }
+    };
+    static CHAINS: std::cell::Cell<u64> = const { std::cell::Cell::new(0) };
 }
 
 fn address(key: &SigningKey, a: &str) -> TransportAddress {
@@ -150,10 +175,16 @@ enum Published {
 }
 
 impl Chain {
-    fn new(seed: u8) -> Chain {
-        let key = SigningKey::from_bytes(&[seed.wrapping_add(7); 32]);
+    fn new(books: bool) -> Chain {
+        let n = CHAINS.with(|c| {
+            c.set(c.get() + 1);
+            c.get()
+        });
+        let mut seed = [7u8; 32];
+        seed[..8].copy_from_slice(&n.to_be_bytes());
+        let key = SigningKey::from_bytes(&seed);
         let id = key.verifying_key();
-        Chain { key, own: NodeInfo::new(id), obs: NodeInfo::new(id), published: vec![] }
+        Chain { key, own: NodeInfo::new(id), obs: NodeInfo::new(id), published: vec![], books }
     }
 
     /// The steps of `AddressBookDiscovery::publish` (iroh_endpoint/discovery.rs:71-108) on the real
@@ -161,6 +192,18 @@ impl Chain {
     /// previous timestamp is incremented.
     fn publish(&mut self, w1: u64, w2: u64, a: &str) -> Result<Published, String> {
         let previous = authenticated(&self.own);
+        if self.books {
+            // discovery.rs:71-75: the previous record is read from the address book
+            use p2panda_store::address_book::NodeInfo as _;
+            let id = self.key.verifying_key();
+            let from_book = BOOKS
+                .with(|b| b.rt.block_on(b.own.node_info(id)))
+                .map_err(|e| format!("address-book: node_info failed: {e}"))?
+                .and_then(|info| info.transports());
+            if from_book != previous {
+                return Err(format!("address-book: own address book holds {from_book:?}, NodeInfo holds {previous:?}"));
+            }
+        }
         let addr = address(&self.key, a);
         let key = self.key.clone();
         let built = catch(|| {
@@ -180,6 +223,15 @@ impl Chain {
             .own
             .update_transports(info.clone().into())
             .map_err(|e| format!("update_transports on own record failed: {e}"))?;
+        if self.books {
+            let id = self.key.verifying_key();
+            let by_book = BOOKS
+                .with(|b| b.rt.block_on(b.own.insert_transport_info(id, info.clone().into())))
+                .map_err(|e| format!("address-book: insert_transport_info failed: {e}"))?;
+            if by_book != newer {
+                return Err(format!("address-book: own address book answered is_newer={by_book}, update_transports {newer}"));
+            }
+        }
         self.published.push(info);
         Ok(Published::Inserted(ts, newer))
     }
@@ -187,15 +239,31 @@ impl Chain {
     /// A remote address book inserts the k-th (1-based) published record.
     fn deliver(&mut self, k: usize) -> Result<bool, String> {
         let info = self.published[k - 1].clone();
-        self.obs
-            .update_transports(info.into())
-            .map_err(|e| format!("update_transports on delivered record failed: {e}"))
+        let newer = self
+            .obs
+            .update_transports(info.clone().into())
+            .map_err(|e| format!("update_transports on delivered record failed: {e}"))?;
+        if self.books {
+            let id = self.key.verifying_key();
+            let (by_book, held) = BOOKS.with(|b| {
+                b.rt.block_on(async { (b.obs.insert_transport_info(id, info.into()).await, b.obs.node_info(id).await) })
+            });
+            let by_book = by_book.map_err(|e| format!("address-book: insert_transport_info failed: {e}"))?;
+            let held = held.map_err(|e| format!("address-book: node_info failed: {e}"))?.as_ref().and_then(entry_ts);
+            if by_book != newer || held != entry_ts(&self.obs) {
+                return Err(format!(
+                    "address-book: observer address book answered is_newer={by_book} and holds {held:?}, update_transports {newer} / {:?}",
+                    entry_ts(&self.obs)
+                ));
+            }
+        }
+        Ok(newer)
     }
 }
 
 fn check_chain(out: &mut Outcome, b: &Value) {
     out.eval();
-    let mut chain = Chain::new(1);
+    let mut chain = Chain::new(out.evaluations <= 3000);
     let mut nontrivial = false;
     for (idx, step) in b["steps"].as_array().expect("steps").iter().enumerate() {
         let ev = step["ev"].as_str().expect("ev");
@@ -215,7 +283,8 @@ fn check_chain(out: &mut Outcome, b: &Value) {
                 }
                 match chain.publish(w1, w2, a) {
                     Err(p) => {
-                        out.violation("C18", "publish-panics-or-fails", p, b.clone());
+                        let sig = if p.starts_with("address-book:") { "address-book-differs-from-update-transports" } else { "publish-panics-or-fails" };
+                        out.violation("C18", sig, p, b.clone());
                         return;
                     }
                     Ok(Published::Unchanged) => {
@@ -400,7 +469,7 @@ fn record(args: &Args) {
             }
         }
         // one chain
-        let mut chain = Chain::new(run as u8);
+        let mut chain = Chain::new(run < 300);
         let base = rng.below(TLC_MAX - 100_000);
         let mut wall = base + 50_000;
         let steps = rng.range(4, 14);
